@@ -185,6 +185,82 @@ def find_ref(n, evs, loops):
     return None
 
 
+def rolled_back_successes(tree):
+    """`restore` reached on a path where everything attempted under that snapshot succeeded: the stack effects of a successful
+    attempt are thrown away (mutation scan: `Some(_) => stack.restore()` in restore_on_none).  Look-ahead nodes do this on purpose
+    and are exempted by the caller."""
+    out = []
+
+    def go(n, opens):
+        tag = n[0]
+        if tag in ("ev", "fork"):
+            o = n[2][0]
+            if o == "snapshot":
+                return go(n[3], opens + [{"succ": False, "fail": False}])
+            if o in ("restore", "clear_snapshot"):
+                if opens:
+                    top = opens[-1]
+                    if o == "restore" and top["succ"] and not top["fail"]:
+                        out.append(n[1])
+                    return go(n[3], opens[:-1])
+                return go(n[3], opens)
+            if tag == "ev":
+                return go(n[3], opens)
+            if o in ("MATCH", "FULL", "CALLPARAM") and opens:
+                ok = [dict(x) for x in opens]
+                ok[-1]["succ"] = True
+                ko = [dict(x) for x in opens]
+                ko[-1]["fail"] = True
+                go(n[3], ok)
+                go(n[4], ko)
+                return
+            go(n[3], [dict(x) for x in opens])
+            go(n[4], [dict(x) for x in opens])
+            return
+        if tag == "loop":
+            go(n[4], [dict(x) for x in opens])
+            go(n[5], [dict(x) for x in opens])
+        elif tag == "opq":
+            for _, sub in n[2]:
+                go(sub, [dict(x) for x in opens])
+        elif tag == "unm":
+            go(n[2], opens)
+    go(tree, [])
+    return out
+
+
+_LA_CACHE = {}
+
+
+def lookahead_helper(world, fid):
+    """A free helper (not a node's twin method) all of whose callers are methods of look-ahead nodes (class POS / NEG): it restores
+    on purpose (`with_restored_stack(stack, |stack| ..)` extracted from Positive / Negative)."""
+    if fid in _LA_CACHE:
+        return _LA_CACHE[fid]
+    res = False
+    if not fid.startswith("<"):
+        callers = []
+        for c in world.crates:
+            for bid, bs in c.bodies.items():
+                if bid == fid:
+                    continue
+                for n in walk(bs[0]["value"]):
+                    cal = n.get("callee")
+                    if cal and strip_generics(cal["path"]) == strip_generics(fid):
+                        callers.append(bid)
+                        break
+        if callers:
+            res = True
+            for bid in callers:
+                try:
+                    if classes.classify(world.tree(bid))["cls"] not in ("POS", "NEG"):
+                        res = False
+                except edt.Unsupported:
+                    res = False
+    _LA_CACHE[fid] = res
+    return res
+
+
 def discarded_matches(tree):
     """Successful child matches whose result is dropped while their stack effects stay: on the success side of a failing-capable
     child event, a leaf that goes on (returns success, continues or leaves a loop) without using the cursor that match produced —
@@ -303,6 +379,11 @@ def run(ctx, ids=("R05-PAIR", "R05-RECOVER", "R05-PRED", "R05-CURSOR"), own=True
         if w.recover and not w.cursor_errors:
             rc.inst(key, loc, "ok", {"recovering_sites": len(w.recover)})
         cls = classes.classify(t)
+        if w.snapshots and cls["cls"] not in ("POS", "NEG") and not lookahead_helper(world, fid):
+            rb_ = rolled_back_successes(t)
+            if rb_:
+                rp.violate(key + " / keep", "`restore` is reached (event e%d) on a path where every attempt under that snapshot succeeded: a "
+                           "successful attempt loses its stack effects" % rb_[0], loc, edt.fmt(t))
         if cls["cls"] in ("POS", "NEG"):
             evs = list(classes.events(t))
             ops = [e[2][0] for e in evs]
